@@ -466,6 +466,26 @@ Theorem C09_idempotent_sign_again :
 Proof. exact: sign_blind_idempotent. Qed.
 Print Assumptions C09_idempotent_sign_again.
 
+(* the aggregate is a function of the multiset of (signer, share) PAIRS: the order in which the pairs are handed to the
+   aggregation is irrelevant (for every list, also with repeated signers); what matters is which share is paired with
+   which signer (C09_bls_assignment) *)
+Theorem C09_bls_pairs_permutation :
+  forall (F : fieldType) (G1 : lmodType F) (ps ps' : seq (nat * G1)),
+  perm_eq ps ps' ->
+  bls_aggregate (F:=F) (G1:=G1) (unzip1 ps) (unzip2 ps) = bls_aggregate (F:=F) (G1:=G1) (unzip1 ps') (unzip2 ps').
+Proof. exact: bls_aggregate_perm. Qed.
+Print Assumptions C09_bls_pairs_permutation.
+
+(* an aggregation that pairs the shares, in the order given, with the SORTED signer list is wrong: for the signers 2,3,1
+   (N = 4, t = 3) each share under its own signer verifies, the same shares against the sorted list 1,2,3 do not, and
+   the shares of 1,2,3 handed over under the labels 2,3,1 do not verify either (toy instance, by computation) *)
+Theorem C09_bls_sorted_pairing_refuted :
+  bls_pairs_case 0 4 3 [:: 2%N; 3%N; 1%N] [:: 2%N; 3%N; 1%N] = (true, true) /\
+  bls_pairs_case 0 4 3 (sort leq [:: 2%N; 3%N; 1%N]) [:: 2%N; 3%N; 1%N] = (false, false) /\
+  bls_pairs_case 0 4 3 [:: 2%N; 3%N; 1%N] [:: 1%N; 2%N; 3%N] = (false, false).
+Proof. exact: sorted_pairing_refuted. Qed.
+Print Assumptions C09_bls_sorted_pairing_refuted.
+
 (* the pinned upstream tree (fix_copy = false): BlindCorrectFormProof.Verify adds b_i^c into the proof's own d_i, so the
    same honest request object is accepted the first time and rejected the second time (toy instance of Corr/PSCorr.v,
    L = 2); the repaired variant accepts it twice.  Real-code witness: SignBlindSignature twice on one BlindSignature. *)
